@@ -136,15 +136,24 @@ Print Assumptions xml_eof_at_end.
    exactly one token per construct, with the prescribed type, the construct's bytes (the DOCTYPE token
    is exactly the declaration), Text() = name / content and AttrVal() = the quoted value with TAB/LF/CR
    read as space, and then io.EOF.
-   The grammar also has the general tag opener [ITag]: '<' or '<?', a name, any sequence of pieces
-   (optional whitespace, a name in which '/' and '?' may occur unless followed by '>', then nothing, or '='
-   and an unquoted value, or '=' and a quoted value), whitespace, and any of the closers '>' '/>' '?>'.  Its
-   token stream is specified exactly: StartTag / StartTagPI, one Attribute token per piece (Text = the name,
-   AttrVal = nil / the unquoted value / the quoted value), the closer's token.  This is how a processing
-   instruction with free-form content is lexed (a '>' in it is a StartTagClose and what follows is character
-   data); the property-conforming PI and start tag are its special case (xml_tag_opener_conforming).
-   PARTIAL only in this sense: two behaviours differ from XML 1.0 and are stated as exact exceptions below
-   (xml_pi_content_refuted / xml_pi_content_exact, xml_attr_crlf_refuted). *)
+   The grammar also has the general tag opener [ITag pi name pieces ws closer]: '<' or '<?', a name, any
+   sequence of pieces (optional whitespace, a name, then nothing, or '=' and an unquoted value, or '=' and a
+   quoted value), whitespace, a closer.  In a start tag '/' and '?' may occur in names unless followed by
+   '>', and the closer is '>' '/>' or '?>'; in a processing instruction (pi = true) only '?' followed by
+   '>' is special, '>' and '/>' are ordinary name bytes, and the closer is '?>'.  The token stream is
+   specified exactly: StartTag / StartTagPI (Text = name / target), one Attribute token per piece (Text =
+   the piece's name, AttrVal = nil / the unquoted value / the quoted value), the closer's token.
+   This is the lexer's treatment of a processing instruction with free-form content: <?target content?>
+   gives StartTagPI, one Attribute per whitespace-separated piece of the content, StartTagClosePI.
+   What the property's sentence (one token per construct, Text() equal to the name or content) gets for a
+   PI is therefore: one bracket StartTagPI ... StartTagClosePI per instruction, Text() of StartTagPI = the
+   target; the content is NOT available as one Text(), only as the bytes of the Attribute tokens in
+   between (design of the token types, not a defect).
+   In a processing instruction a quoted piece ends at its closing quote or at the instruction's first
+   ?> (then AttrVal is the opening quote and the bytes up to there), so every instruction ends at its
+   first ?> as in XML 1.0 (xml_pi_quote_exact; fixed in /repo by 5eea3cf).
+   PARTIAL only in the sense that PI content comes as Attribute pieces, and for CR LF in attribute values
+   (xml_attr_crlf_refuted). *)
 Theorem xml_wellformed_tokens_partial :
   forall items, doc_ok items -> lexes (xml_init (render_doc items)) (expect_doc items) 1.
 Proof. exact xml_wellformed_tokens_proof. Qed.
@@ -168,24 +177,32 @@ Theorem xml_doctype_single_quote :
 Proof. exact xml_doctype_single_quote_proof. Qed.
 Print Assumptions xml_doctype_single_quote.
 
-(* Refuted reading "every processing instruction is StartTagPI ... StartTagClosePI": in <?p a>b?><a/>
-   the '>' is returned as StartTagClose and b?> as Text. *)
-Theorem xml_pi_content_refuted :
-  exists d, d = ex_pi_gt /\
-    option_map (map (fun r => (fst (fst r), snd (fst r)))) (run 4 (xml_init d)) =
-    Some [(TStartTagPI, Some (0, 3)); (TAttribute, Some (3, 5)); (TStartTagClose, Some (5, 6)); (TText, Some (6, 9))].
-Proof. exact xml_pi_content_refuted_proof. Qed.
-Print Assumptions xml_pi_content_refuted.
-
-(* The exact form of the PI exception: <?p a>b?><a/> is the general opener  <?p  with the piece " a" closed
-   by '>', then character data b?> , then the element; its tokens are exactly those the grammar prescribes. *)
+(* Processing instructions with free-form content (fixed in /repo by 2f59676: inside a processing
+   instruction only ?> closes; a lone '>' or '/>' belongs to a piece).  <?p a>b?><a/> is the general opener
+   <?p  with the one piece " a>b" (Text = a>b, no AttrVal) closed by ?>, then the element. *)
 Theorem xml_pi_content_exact :
   render_doc ex_pi_gt_items = ex_pi_gt /\
   lexes (xml_init ex_pi_gt) (expect_doc ex_pi_gt_items) 1 /\
-  map (fun t => fst (fst (fst t))) (expect_doc ex_pi_gt_items) =
-    [TStartTagPI; TAttribute; TStartTagClose; TText; TStartTag; TStartTagCloseVoid].
+  expect_doc ex_pi_gt_items =
+    [ (TStartTagPI, Some [60; 63; 112], Some [112], None); (TAttribute, Some [32; 97; 62; 98], Some [97; 62; 98], None);
+      (TStartTagClosePI, Some [63; 62], None, None);
+      (TStartTag, Some [60; 97], Some [97], None); (TStartTagCloseVoid, Some [47; 62], None, None) ].
 Proof. exact xml_pi_content_exact_proof. Qed.
 Print Assumptions xml_pi_content_exact.
+
+(* A quote after '=' in PI content no longer carries the instruction beyond its ?> : <?p a=QUOTE b?><a/>
+   is the opener <?p , the piece  a=QUOTE b  cut by ?> (Text = a, AttrVal = QUOTE b), the closer ?>, then
+   the element. *)
+Theorem xml_pi_quote_exact :
+  render_doc ex_pi_quote_items = ex_pi_quote /\
+  lexes (xml_init ex_pi_quote) (expect_doc ex_pi_quote_items) 1 /\
+  expect_doc ex_pi_quote_items =
+    [ (TStartTagPI, Some [60; 63; 112], Some [112], None);
+      (TAttribute, Some [32; 97; 61; 34; 98], Some [97], Some [34; 98]);
+      (TStartTagClosePI, Some [63; 62], None, None);
+      (TStartTag, Some [60; 97], Some [97], None); (TStartTagCloseVoid, Some [47; 62], None, None) ].
+Proof. exact xml_pi_quote_exact_proof. Qed.
+Print Assumptions xml_pi_quote_exact.
 
 (* The conforming processing instruction and start tag (pseudo-attributes / attributes with quoted values)
    are the general opener with quoted pieces: same bytes, same prescribed tokens. *)
